@@ -36,7 +36,7 @@ m = {
     "engines": [
         {"name": "sdsim", "path": "/verif/sim", "serves_properties": sorted(i for i in ids if i != "C16"), "kind_free_text": "deterministic simulator with fault injection: real sd_jwt_rs issuer/holder/verifier on lock-step node threads, simulated clock/entropy/network, seeded scenarios, explicit replay files, delta-debugging minimiser"},
         {"name": "sdsim-mock", "path": "/verif/sim", "serves_properties": sorted(i for i in ids if i == "C16"), "kind_free_text": "same simulator built against sd-jwt-rs with feature mock_salts"},
-        {"name": "sdsim (atomics leg)", "path": "/verif/sim", "serves_properties": ["C14"], "kind_free_text": "the same simulator built with cargo +nightly, -Zsanitizer=thread -Zexternal-clangrt and its own sanitizer runtime (sim/src/tsanrt.rs): every atomic operation of instrumented code is a seeded scheduling point; run by ./check C14 after the main leg, merged into the same evidence file; skipped with a NOTE if the nightly toolchain cannot build it"},
+        {"name": "sdsim (atomics leg)", "path": "/verif/sim", "serves_properties": ["C10", "C14"], "kind_free_text": "the same simulator built with cargo +nightly, -Zsanitizer=thread -Zexternal-clangrt and its own sanitizer runtime (sim/src/tsanrt.rs): every atomic operation of instrumented code is a seeded scheduling point; run by ./check C14 and ./check C10 after the other legs, merged into the same evidence file; skipped with a NOTE if the nightly toolchain cannot build it"},
         {"name": "sdsim-mock (profile alt)", "path": "/verif/sim", "serves_properties": ["C02", "C03", "C04", "C07", "C08", "C09", "C10", "C15"], "kind_free_text": "alternate build leg of the verifier-side checks: the same simulator against sd-jwt-rs with feature mock_salts, debug assertions off, overflow checks off (cargo build --profile alt -p sdsim-mock); run by ./check after the main leg, merged into the same evidence file"},
     ],
     "checks": checks,
